@@ -602,3 +602,41 @@ fn enc_m_eval() {
         else { println!("M2S-OUT {:?}", word_85(inp).map(|a| a.to_vec())); }
     }
 }
+
+/// a partial tail AFTER a full group whose bytes are large: the padding of the tail group must be zero, not left-overs
+/// (first group concrete so that its base-85 division is concrete; the tail bytes are symbolic)
+fn a85_tail_after_group<const T: usize, const N: usize, const L: usize, const O: usize>() {
+    let t: [u8; T] = kani::any();
+    let mut d = [0u8; N];
+    d[0] = 0x01; d[1] = 0x02; d[2] = 0xfe; d[3] = 0xff;
+    let mut i = 0; while i < T { d[4 + i] = t[i]; i += 1; }
+    let e = encode(&d, &StreamFilter::ASCII85Decode).unwrap();
+    assert!(e.len() >= 2 && e.len() <= L);
+    let mut ea = [b' '; L];
+    let mut i = 0; while i < e.len() { ea[i] = e[i]; i += 1; }
+    let want = a85_ref::<L, O>(&ea);
+    assert!(matches!(&want, Some((n, w)) if *n == N && same(&w[..N], &d)));
+    std::mem::forget(e);
+}
+#[kani::proof]
+fn enc_a85_enc_tail1_after_group() { a85_tail_after_group::<1, 5, 10, 8>() }
+#[kani::proof]
+fn enc_a85_enc_tail2_after_group() { a85_tail_after_group::<2, 6, 11, 8>() }
+
+/// three rows of one byte each (1 column, 8 bits): every combination of row filters incl. a None row between filtered rows
+#[kani::proof]
+#[kani::stub(std::fmt::format, nofmt)]
+fn enc_flate_p13_c1_b8_w1_r3() { flate_png::<3, 1, 6, 11>(13, 1, 8, 1) }
+/// same, with a 3-byte tail 41 42 t (t symbolic): four digits are written, so a non-zero fourth byte of the group would show
+#[kani::proof]
+fn enc_a85_enc_tail3_after_group() {
+    let t: u8 = kani::any();
+    let d = [0x01u8, 0x02, 0xfe, 0xff, 0x41, 0x42, t];
+    let e = encode(&d, &StreamFilter::ASCII85Decode).unwrap();
+    assert!(e.len() >= 2 && e.len() <= 12);
+    let mut ea = [b' '; 12];
+    let mut i = 0; while i < e.len() { ea[i] = e[i]; i += 1; }
+    let want = a85_ref::<12, 8>(&ea);
+    assert!(matches!(&want, Some((n, w)) if *n == 7 && same(&w[..7], &d)));
+    std::mem::forget(e);
+}
